@@ -44,7 +44,7 @@ def run(ctx):
     sys.path.insert(0, os.path.join(os.path.dirname(os.path.dirname(os.path.abspath(__file__))), "lib"))
     import verif
     rc = verif.standard_check(ctx, SPEC)
-    ev = os.path.join(verif.VERIF, "evidence", ctx.pid + ".json")
+    ev = verif.evidence_path(ctx)
     if not ctx.replay and os.path.exists(ev):
         e = json.load(open(ev))
         impl_only, blocks, by_gen = 0, 0, {}
